@@ -18,7 +18,12 @@ Runs the real parser entry points of the ``dns`` package on PYTHONPATH.  Clauses
   C04.text_message       dns.message.from_text
   C04.text_tokenizer     Tokenizer.get / Token.unescape / unescape_to_bytes
   C04.rerender           every value returned by any of the above renders to text and wire
-                         without a non-library exception
+                         without a non-library exception; additionally driven by the
+                         field-extreme generator (_wire_field_extremes, bounded/_c04_fields.py):
+                         per implemented type an RFC-layout specimen RDATA whose fixed-width
+                         integer fields take their extreme values one at a time, through
+                         rdata.from_wire and (wrapped in a message) message.from_wire, rendered
+                         with to_text / to_wire / to_digestable / Message.to_text
 """
 
 from __future__ import annotations
@@ -60,7 +65,29 @@ BOUNDS = (
     "(quick 12 / thorough 400 per sample), zone files assembled from ~130 boundary lines and "
     "mutated base zone (quick 2 500 / thorough 100 000), message text likewise (quick 1 500 / "
     "thorough 50 000), long inputs (labels 63/64, names 254..257, 4 301-digit numbers).  Every "
-    "returned value is rendered with to_text and to_wire.  A watchdog of 20 s per call detects "
+    "returned value is rendered with to_text and to_wire.  FIELD EXTREMES (systematic, not seeded, "
+    "same set in both tiers): 88 RDATA specimens written from the RFC wire layouts covering all 72 "
+    "implemented (class,type) (several per type for IPSECKEY/AMTRELAY gateway kinds, OPT option "
+    "kinds, TSIG/TKEY with and without other-data, SVCB/HTTPS parameter sets); each 8/16/32/48-bit "
+    "integer field in turn takes 0, 1, max-1, max, specimen+-1 and the interior boundaries of its "
+    "width (u8 19 values, nibble-coded LOC octets all 256, code-point octets 60; u16 28 values "
+    "incl. 4094..4097, 255..257, 32767/32768, 65279/65280, code-point fields also 0..69 and "
+    "240..261; u32 13; u48 10; LOC coordinates +-90/180 degrees +-1 ms), each length prefix 0, 1, "
+    "n-1, n+1, max-1, max, each counted field empty / maximal, each fixed-size opaque field all "
+    "00 / all ff, and all integer fields together at 0 / 1 / max-1 / max (about 9 200 RDATA wires): "
+    "rdata.from_wire without and with origin; boundary values wrapped into a one-record response "
+    "(OPT/TSIG in the additional section) for message.from_wire strict, continue_on_error=True, "
+    "origin, one_rr_per_rrset, for TSIG keyring=False (+continue_on_error, +origin) and a keyring, "
+    "plus the differential continue_on_error clause (quick: all variants at the four extremes and "
+    "for OPT/TSIG/TKEY/SIG/RRSIG, ordinary types otherwise continue_on_error only at 6-10 main "
+    "boundaries; thorough: all variants for every boundary value); record-header fields: TTL at "
+    "the 32-bit boundaries, for OPT the extended-rcode/version/flags word at 23 values x header "
+    "rcode 0/15 and the payload class at 28 values.  Every value returned is rendered with "
+    "to_text (with/without origin), to_wire, to_digestable, Message.to_text, Message.to_wire "
+    "(also with the unverified TSIG kept) and record by record.  Thorough adds, in the time left "
+    "at the end of the run, every octet value, 16-bit 0..299 / powers of two +-1 / 4090..4101 / "
+    "65270..65535, and all 65 536 values of TSIG.error, TKEY.error, RRSIG type covered, "
+    "EDE info code, OPT option code (about 385 000 RDATA wires).  A watchdog of 20 s per call detects "
     "non-termination.  Tolerated and only counted: DNSException subclasses outside the "
     "FormError/SyntaxError families (UnknownTSIGKey, Truncated, tsig errors, NameTooLong on the "
     "text side, UnknownOrigin, NoSOA/NoNS, CNAMEAndOtherData, UnknownRdatatype, ...).  Not "
@@ -230,6 +257,14 @@ def _wire_options(C):
 # ============================================================================ wire: field extremes
 _X4 = {"u8": (0, 1, 254, 255), "u16": (0, 1, 65534, 65535), "u32": (0, 1, 0xFFFFFFFE, 0xFFFFFFFF),
        "u48": (0, 1, (1 << 48) - 2, (1 << 48) - 1)}
+# types with their own handling in the message layer (OPT, TSIG, TKEY, SIG/RRSIG: covers()):
+# every edge value goes through the message path also in the quick tier
+_MSG_TYPES = (24, 41, 46, 249, 250)
+_MSG_EDGE = {"u8": (0, 1, 127, 128, 254, 255), "u16": (0, 1, 255, 256, 4095, 4096, 32767, 32768, 65534, 65535),
+             "u32": (0, 1, 0x7FFFFFFF, 0x80000000, 0xFFFFFFFE, 0xFFFFFFFF), "len8": (0, 255), "len16": (0, 65535)}
+# quick: the record-header sweep (TTL; OPT class/TTL) does not depend on the type of an ordinary
+# record: a few representative layouts (thorough: every layout)
+_HDR_QUICK = ("A", "SOA", "RRSIG", "TKEY", "NSEC", "OPT-nsid", "OPT-ecs", "OPT-ede", "TSIG")
 _OPT_TTLS = [0x01000000, 0x0F000000, 0xFF000000, 0x00010000, 0x00FF0000, 0x00008000, 0x00007FFF, 0x0000FFFF, 0xFF00FFFF, 0xFFFF8000]
 
 
@@ -248,7 +283,7 @@ def _wire_field_extremes(C):
     n_cases = n_value = n_spec_bad = 0
     per_type_value = collections.Counter()
     sampled = False
-    for c in F.cases(R.quick):
+    for c in F.cases():
         if C.stop(0.55):
             R.note(f"wire_field_extremes: cut by budget at {c['layout']} after {n_cases} wires")
             break
@@ -270,32 +305,62 @@ def _wire_field_extremes(C):
             continue
         C.case("rdata.from_wire", dict(base, origin="example."))
         x4 = c["kind"] in ("specimen", "all", "fix") or c["value"] in _X4.get(c["kind"], ())
+        if R.quick and not x4 and t not in _MSG_TYPES and c["value"] not in _MSG_EDGE.get(c["kind"], ()):
+            continue  # quick: ordinary types go through the message path at the main boundaries only
         opts = F.message_opts(t)
-        for j, o in enumerate(opts):
-            if j >= 2 and not x4 and R.quick:
-                break  # quick: the origin / one-rr / keyring variants only at the four extremes
-            mw = F.wrap_message(cls, t, w)
-            C.case("message.from_wire", {"wire": mw, "opts": o, "deep": True, "field": what},
+        special = t in _MSG_TYPES
+        if R.quick and not special:
+            # quick, ordinary types: strict + continue_on_error; the origin variant at the four
+            # extremes; all variants for the specimen
+            nopts = len(opts) if c["kind"] == "specimen" else 3 if x4 and c["kind"] in F.WIDTH else 2
+        else:
+            nopts = len(opts) if (x4 or not R.quick) else 2
+        mw = F.wrap_message(cls, t, w)
+        use = opts[:nopts]
+        if R.quick and not special and not x4:
+            use = opts[1:2]  # continue_on_error alone: equals the strict parse unless an error is recorded
+        for j, o in enumerate(use):
+            C.case("message.from_wire", {"wire": mw, "opts": o, "deep": True, "rdtype": t, "field": what},
                    sample=(c["kind"] == "specimen" and t == 250 and j == 0))
-            if x4 and not o.get("continue_on_error"):
+            if not o.get("continue_on_error") and (not R.quick or c["kind"] in ("specimen", "all") or (special and x4)):
                 C.case("message.coe", {"wire": mw, "opts": o})
-        if c["kind"] == "specimen":
+        if c["kind"] == "specimen" and (not R.quick or c["layout"] in _HDR_QUICK):
             # the fixed-width fields of the record header: TTL (OPT: extended rcode, version,
             # flags), OPT class (payload size), header rcode
-            ttls = sorted(set(F.edge("u32")) | (set(_OPT_TTLS) if t == 41 else set()))
+            ttls = sorted(set(_MSG_EDGE["u32"] if R.quick and t != 41 else F.edge("u32")) | (set(_OPT_TTLS) if t == 41 else set()))
             for ttl in ttls:
                 for flags in ((0x8180, 0x818F) if t == 41 else (0x8180,)):
                     mw = F.wrap_message(cls, t, w, ttl=ttl, flags=flags)
                     for o in opts[:2]:
-                        C.case("message.from_wire", {"wire": mw, "opts": o, "deep": True, "field": f"{what}.rr_ttl={ttl}"})
+                        C.case("message.from_wire", {"wire": mw, "opts": o, "deep": True, "rdtype": t, "field": f"{what}.rr_ttl={ttl}"})
             if t == 41:
                 for payload in F.edge("u16"):
                     mw = F.wrap_message(cls, t, w, payload=payload)
                     for o in opts[:2]:
-                        C.case("message.from_wire", {"wire": mw, "opts": o, "deep": True, "field": f"{what}.payload={payload}"})
+                        C.case("message.from_wire", {"wire": mw, "opts": o, "deep": True, "rdtype": t, "field": f"{what}.payload={payload}"})
     silent = sorted(l for _, _, l, _ in F.LAYOUTS if per_type_value[l] <= 1)
     R.note(f"wire_field_extremes: {n_cases} field-extreme RDATA wires, {n_value} accepted by rdata.from_wire and rendered; "
            f"{n_spec_bad} specimens rejected; layouts with no accepted variant besides the specimen: {silent}")
+
+
+def _wire_field_extremes_dense(C):
+    """Thorough tier only, run last with whatever budget is left: the interior of the integer
+    fields (every octet value, 16-bit neighbourhoods, all 65 536 values of the error /
+    type-covered / option-code fields) through rdata.from_wire and every rendering."""
+    R = C.R
+    if R.quick:
+        return
+    n = n_value = 0
+    for c in F.extra_cases():
+        if R.deadline():
+            R.note(f"wire_field_extremes_dense: cut by the deadline at {c['layout']}.{c['field']} after {n} wires")
+            break
+        w = c["wire"]
+        n += 1
+        info = C.case("rdata.from_wire", {"rdclass": c["rdclass"], "rdtype": c["rdtype"], "wire": w, "current": 0, "rdlen": len(w),
+                                          "deep": True, "field": f"{c['layout']}.{c['field']}={c['value']}"})
+        n_value += info["outcome"] == "value"
+    R.note(f"wire_field_extremes_dense: {n} further RDATA wires, {n_value} accepted and rendered")
 
 
 # ============================================================================ wire: messages
@@ -658,7 +723,7 @@ def run(R):
     # order: cheap exhaustive scopes of every clause first, long seeded tails are bounded by
     # per-section budget fractions so that every clause is evaluated in every run
     for fn in (_wire_names, _wire_rdata, _wire_options, _wire_field_extremes, _wire_messages, _text_names, _text_ttl,
-               _text_rdata, _text_zones, _text_messages, _text_tokenizer):
+               _text_rdata, _text_zones, _text_messages, _text_tokenizer, _wire_field_extremes_dense):
         t0 = R.elapsed()
         try:
             fn(C)
